@@ -218,6 +218,14 @@ class SourceIndex:
         else:
             raise AnalysisError('bin/martinize2 not found under {}'.format(self.root))
         self._nx_graph = None
+        # alpha-normalise local names towards the names the rule sets use (vstat/alpha.py)
+        self.renamed = {}
+        if not os.environ.get('VSTAT_NO_ALPHA'):
+            from . import alpha
+            for rel, module in self.modules.items():
+                applied = alpha.normalise_module(module)
+                if applied:
+                    self.renamed[rel] = applied
 
     def mod(self, rel):
         try:
